@@ -123,9 +123,12 @@ def lattice(N, leafs, strats):
         leaf = _pick(sx, "leaf", leafs)
         strat = _pick(sx, "strategy", strats)
         qi = sx.choice("query_point", N)
-        pts = np.array([[float(x), float(i)] for i, x in enumerate(xs)])
+        # the same lattice far away from the origin (world coordinates): all values are integers below 2^53, so the point set and
+        # the brute-force distances are exact, while formulas that cancel large squares are not
+        off = [0, 2 ** 27][sx.choice("translated_far_from_the_origin", 2)]
+        pts = np.array([[float(x + off), float(i + off)] for i, x in enumerate(xs)])
         rnd = shims.RandomStub(sx)
-        tag = " [2-D lattice, %s]" % strat
+        tag = " [2-D lattice%s, %s]" % (" translated by 2^27" if off else "", strat)
         with shims.rebound(K, np=shims.ModuleProxy(np, dict(random=rnd))):
             try:
                 tree = K.KDTree(pts, max_leaf_size=leaf, strategy=strat)
@@ -136,7 +139,7 @@ def lattice(N, leafs, strats):
         stored = sorted(int(i) for lf in leaves for i in lf.points)
         sx.check(stored == list(range(N)), "every input point is stored in exactly one leaf" + tag, detail=str(stored))
         q = pts[qi]
-        d2 = [float((pts[i][0] - q[0]) ** 2 + (pts[i][1] - q[1]) ** 2) for i in range(N)]
+        d2 = [float((xs[i] - xs[qi]) ** 2 + (i - qi) ** 2) for i in range(N)]
         for k in range(1, N + 1):
             try:
                 res = [int(i) for i in tree.query(q, k)]
